@@ -4,7 +4,7 @@ CONSTANTS
   MaxPackets = 2
   NR = 2
   RFns <- RFnsRoute
-  Crtps <- NoCrtps
+  SendSets <- NoSenders
   MaxSends = 0
   Mode = "router"
   LateRegister = TRUE
